@@ -68,6 +68,10 @@ def integrate_event(c, lazy=False):
         m = measurement(c["nr"], c["na"], c["rs"], c["ro"], c["ao"], lazy)
         rl = None if c["rl"] == [] else (F(c["rl"][0]), F(c["rl"][1]))
         al = None if c["al"] == [] else (F(c["al"][0]) * math.pi, F(c["al"][1]) * math.pi)
+        if (c["nr"] * 3 + c["na"]) % 4 == 0:
+            # the same measurement object has been integrated before, over everything and over these limits (results discarded)
+            m.integrate()
+            m.integrate(radial_limits=rl, azimuthal_limits=al)
         if al is None and rl is not None and (c["nr"] + c["na"]) % 2 == 0:
             res = m.integrate_radial(rl[0], rl[1])
         else:
@@ -129,7 +133,7 @@ def self_test(ctx: Ctx):
 def run(ctx: Ctx):
     quick = ctx.tier == "quick"
     ctx.rule = ("(radial bins, azimuthal bins, radial sampling, radial offset, azimuthal offset, radial limits, azimuthal limits) "
-                "with limits on bin edges, one bin below the first edge, inside a bin, or absent, all enumerated by TLC from PolarImpl; executed on a one-hot ensemble over "
+                "(a quarter of the cases on a measurement object that was integrated before) with limits on bin edges, one bin below the first edge, inside a bin, or absent, all enumerated by TLC from PolarImpl; executed on a one-hot ensemble over "
                 "the bins; plus partitions of each axis into 2-3 edge-aligned ranges; non-trivial = at least one limit given")
     r = ctx.design_check("MCPolar", cfg_text=CFG.format(r=3 if quick else 4, a=4 if quick else 6), label="PolarImpl=>Polar",
                          workers=1, timeout=3000)
